@@ -22,6 +22,10 @@ Definition tok_of (v : tokv) : token :=
 Inductive hop :=
 | HRefresh (expect : option (list (bytes * Z))) (o_err : bool)
      (* the driver served this JWK set (None: something updateKeys must refuse); did updateKeys/NewHook fail? *)
+| HLoop (expect : option (list (bytes * Z))) (o_fetched : bool)
+     (* the endpoint's content changed to this; the hook's OWN periodic refresh (update interval of a few ms) must come
+        for it: did the endpoint serve the new content twice within the patience of the driver (5 s)?  The second GET
+        means the answer to the first has been dealt with. *)
 | HAnnounce (now : Z) (ih : bytes) (param : option tokv) (o : Z) (o_msg : bytes)
 | HScrape (param : option tokv) (o : Z).
 
@@ -99,6 +103,9 @@ Fixpoint chk_ops (cfg : config) (keys : list (bytes * Z)) (ops : list hop) (reas
       if o_err then chk_ops cfg keys r reason (if tag =? (-1) then 22 else tag)
       else (tag, if reason =? 0 then 113 else reason)          (* register contents unknown: stop *)
     end
+  | HLoop expect o_fetched :: r =>
+    if negb o_fetched then (24, if reason =? 0 then 15 else reason)   (* the periodic refresh has stopped *)
+    else chk_ops cfg (match expect with Some jwks => publish jwks | None => keys end) r reason (if tag =? (-1) then 24 else tag)
   | HAnnounce now ih param o o_msg :: r =>
     let '(rs, tg) := chk_announce cfg keys now ih param o o_msg in
     chk_ops cfg keys r (if reason =? 0 then rs else reason) tg
@@ -107,9 +114,9 @@ Fixpoint chk_ops (cfg : config) (keys : list (bytes * Z)) (ops : list hop) (reas
   end.
 
 Definition n_requests (ops : list hop) : nat :=
-  length (List.filter (fun o => match o with HRefresh _ _ => false | _ => true end) ops).
+  length (List.filter (fun o => match o with HRefresh _ _ | HLoop _ _ => false | _ => true end) ops).
 Definition has_failed_refresh (ops : list hop) : bool :=
-  existsb (fun o => match o with HRefresh None _ => true | _ => false end) ops.
+  existsb (fun o => match o with HRefresh None _ | HLoop None _ => true | _ => false end) ops.
 
 Definition conc_bad (cfg : config) (old new : list (bytes * Z)) (now : Z) (ih : bytes) (x : tokv * Z * Z) : bool :=
   let '(v, n_acc, n_rej) := x in
@@ -169,6 +176,8 @@ Fixpoint explain_ops (cfg : config) (keys : list (bytes * Z)) (ops : list hop) :
   | [] => []
   | HRefresh (Some jwks) _ :: r => (-1) :: explain_ops cfg (publish jwks) r
   | HRefresh None _ :: r => (-2) :: explain_ops cfg keys r
+  | HLoop (Some jwks) _ :: r => (-1) :: explain_ops cfg (publish jwks) r
+  | HLoop None _ :: r => (-2) :: explain_ops cfg keys r
   | HAnnounce now ih None _ _ :: r => 20 :: explain_ops cfg keys r
   | HAnnounce now ih (Some v) _ _ :: r => reject_code (validate_jwt cfg keys now ih (tok_of v)) :: explain_ops cfg keys r
   | HScrape _ _ :: r => 21 :: explain_ops cfg keys r
